@@ -31,9 +31,10 @@ Record nm := Nm {
   handed  : list (nat * result); (* ghost: (flight id, result) handed to each caller, newest first *)
   term    : list nat;            (* Terminated(path) messages at the death watch (instance that sent it) *)
   cnt     : Z;                   (* this name's share of actorsCounter *)
+  gaveup  : nat;                 (* ghost: callers that stopped waiting (their own ctx expired) *)
 }.
 
-Definition nm0 : nm := Nm None 0 [] FNone 0 0 [] [] 0%Z.
+Definition nm0 : nm := Nm None 0 [] FNone 0 0 [] [] 0%Z 0.
 
 Definition st := nat -> nm.
 Definition init : st := fun _ => nm0.
@@ -50,20 +51,24 @@ Inductive label :=
 | LAdd (n : nat) (child : bool)  (* attachAndPublish: tree.addNode; duplicate => counter--, and the caller gets the canonical
                                     instance (Spawn, SpawnNamedFromFunc) or its own new unregistered one (spawnChildLocal drops
                                     completeSpawn's result) *)
-| LFail (n : nat)         (* fn returns an error before creating anything (precondition, ctx, PreStart) *)
+| LFail (n : nat)         (* fn returns an error before creating anything (precondition, PreStart): every caller gets it *)
+| LCancel (n : nat)       (* the winner's OWN context is cancelled while its PreStart runs: the winner gets the error, the
+                             coalesced waiters (live contexts) re-enter the single flight once: a new flight *)
+| LAbandon (n : nat)      (* a waiter's own context expires: it returns ctx.Err(); the flight is untouched *)
+| LAddFail (n : nat)      (* attachAndPublish: addNode succeeded, the registry publication failed: rollbackSpawn = Shutdown *)
 | LStop (n p : nat)       (* Shutdown of instance p completes: running := false, Terminated(path) if the path has a node *)
 | LReap (n : nat).        (* death watch handles Terminated(path): counter--, deleteNode(path) *)
 
 Definition finish (x : nm) (r : result) (nd : option nat) (rn : list nat) (c : Z) : nm :=
-  Nm nd (next x) rn FNone (S (fid x)) 0 (repeat (fid x, r) (waiters x) ++ handed x) (term x) c.
+  Nm nd (next x) rn FNone (S (fid x)) 0 (repeat (fid x, r) (waiters x) ++ handed x) (term x) c (gaveup x).
 
 Definition step (s : st) (l : label) : option st :=
   match l with
   | LCall n =>
     let x := s n in
     match flight x with
-    | FNone => Some (upd s n (Nm (node x) (next x) (runs x) FStart (fid x) 1 (handed x) (term x) (cnt x)))
-    | f => Some (upd s n (Nm (node x) (next x) (runs x) f (fid x) (S (waiters x)) (handed x) (term x) (cnt x)))
+    | FNone => Some (upd s n (Nm (node x) (next x) (runs x) FStart (fid x) 1 (handed x) (term x) (cnt x) (gaveup x)))
+    | f => Some (upd s n (Nm (node x) (next x) (runs x) f (fid x) (S (waiters x)) (handed x) (term x) (cnt x) (gaveup x)))
     end
   | LLookup n =>
     let x := s n in
@@ -71,21 +76,21 @@ Definition step (s : st) (l : label) : option st :=
     | FStart =>
       match node x with
       | Some q => if mem q (runs x) then Some (upd s n (finish x (RPid q) (node x) (runs x) (cnt x)))
-                  else Some (upd s n (Nm (node x) (next x) (runs x) FMake (fid x) (waiters x) (handed x) (term x) (cnt x)))
-      | None => Some (upd s n (Nm (node x) (next x) (runs x) FMake (fid x) (waiters x) (handed x) (term x) (cnt x)))
+                  else Some (upd s n (Nm (node x) (next x) (runs x) FMake (fid x) (waiters x) (handed x) (term x) (cnt x) (gaveup x)))
+      | None => Some (upd s n (Nm (node x) (next x) (runs x) FMake (fid x) (waiters x) (handed x) (term x) (cnt x) (gaveup x)))
       end
     | _ => None
     end
   | LCreate n =>
     let x := s n in
     match flight x with
-    | FMake => Some (upd s n (Nm (node x) (S (next x)) (next x :: runs x) (FCreated (next x)) (fid x) (waiters x) (handed x) (term x) (cnt x)))
+    | FMake => Some (upd s n (Nm (node x) (S (next x)) (next x :: runs x) (FCreated (next x)) (fid x) (waiters x) (handed x) (term x) (cnt x) (gaveup x)))
     | _ => None
     end
   | LCount n =>
     let x := s n in
     match flight x with
-    | FCreated p => Some (upd s n (Nm (node x) (next x) (runs x) (FCounted p) (fid x) (waiters x) (handed x) (term x) (cnt x + 1)))
+    | FCreated p => Some (upd s n (Nm (node x) (next x) (runs x) (FCounted p) (fid x) (waiters x) (handed x) (term x) (cnt x + 1) (gaveup x)))
     | _ => None
     end
   | LAdd n child =>
@@ -104,19 +109,43 @@ Definition step (s : st) (l : label) : option st :=
     | FStart | FMake => Some (upd s n (finish x RErr (node x) (runs x) (cnt x)))
     | _ => None
     end
+  | LCancel n =>
+    let x := s n in
+    match flight x, waiters x with
+    | FMake, S w =>
+      Some (upd s n (Nm (node x) (next x) (runs x) (match w with O => FNone | _ => FStart end) (S (fid x)) w
+                        (repeat (fid x, RErr) 1 ++ handed x) (term x) (cnt x) (gaveup x)))
+    | _, _ => None
+    end
+  | LAbandon n =>
+    let x := s n in
+    match flight x, waiters x with
+    | FNone, _ => None
+    | f, S (S w) => Some (upd s n (Nm (node x) (next x) (runs x) f (fid x) (S w) (handed x) (term x) (cnt x) (S (gaveup x))))
+    | _, _ => None
+    end
+  | LAddFail n =>
+    let x := s n in
+    match flight x, node x with
+    | FCounted p, None =>
+      (* inserted, published? no: rolled back by Shutdown(p): Terminated(path) goes to the death watch *)
+      Some (upd s n (Nm (Some p) (next x) (del p (runs x)) FNone (S (fid x)) 0 (repeat (fid x, RErr) (waiters x) ++ handed x)
+                        (term x ++ [p]) (cnt x) (gaveup x)))
+    | _, _ => None
+    end
   | LStop n p =>
     let x := s n in
     if mem p (runs x)
     then Some (upd s n (Nm (node x) (next x) (del p (runs x)) (flight x) (fid x) (waiters x) (handed x)
-                           (match node x with Some _ => term x ++ [p] | None => term x end) (cnt x)))
+                           (match node x with Some _ => term x ++ [p] | None => term x end) (cnt x) (gaveup x)))
     else None
   | LReap n =>
     let x := s n in
     match term x with
     | _ :: rest =>
       match node x with
-      | Some _ => Some (upd s n (Nm None (next x) (runs x) (flight x) (fid x) (waiters x) (handed x) rest (cnt x - 1)))
-      | None => Some (upd s n (Nm None (next x) (runs x) (flight x) (fid x) (waiters x) (handed x) rest (cnt x)))
+      | Some _ => Some (upd s n (Nm None (next x) (runs x) (flight x) (fid x) (waiters x) (handed x) rest (cnt x - 1) (gaveup x)))
+      | None => Some (upd s n (Nm None (next x) (runs x) (flight x) (fid x) (waiters x) (handed x) rest (cnt x) (gaveup x)))
       end
     | [] => None
     end
